@@ -28,45 +28,65 @@ theorem dry_shape {α : Type} (F : α) (c1 c2 c3 c4 : Prop) [Decidable c1] [Deci
   all_goals simp at *
 
 section
-variable (n : Nat) (ih : ∀ (F : Forest) (o f : Nat) (tl : Bool), (enable n F o f true tl).1 = F)
+variable (n : Nat) (ih : ∀ (F : Forest) (o f : Nat) (tl : Bool), (enable n F o f true tl false).1 = F)
 include ih
 
 /-- `requires_self` in a dry run -/
 theorem dry_self_fold (F : Forest) (o : Nat) (l : List Nat) (acc : Forest × Bool) (h : acc.1 = F) :
     (l.foldl (fun (acc : Forest × Bool) g =>
-        if !acc.2 then acc else enable n acc.1 o g true false) acc).1 = F := by
+        if !acc.2 then acc else enable n acc.1 o g true false false) acc).1 = F := by
   refine foldl_fst_inv _ F ?_ l acc h
   intro acc g h
   split
   · exact h
   · rw [ih]; exact h
 
-omit ih in
-/-- `requires_alt` in a dry run (no recursive fact is needed: every branch taken when `dry` holds returns `acc.1`) -/
+/-- the test of the alternatives of one `requires_alt` entry in a dry run outside an error report -/
+theorem dry_tested_fold (F : Forest) (o : Nat) (l : List Nat) (t : Forest × Option Nat) (h : t.1 = F) :
+    (l.foldl (fun (t : Forest × Option Nat) g =>
+        match t.2 with
+        | some _ => t
+        | none =>
+          let r := enable n t.1 o g true false false
+          (r.1, if r.2 then some g else none)) t).1 = F := by
+  refine foldl_fst_inv _ F ?_ l t h
+  intro t g h
+  split
+  · exact h
+  · dsimp only
+    rw [ih]; exact h
+
+/-- `requires_alt` in a dry run outside an error report: every branch taken returns the forest left by the tests -/
 theorem dry_alt_fold (F : Forest) (o f : Nat) (l : List (List Nat)) (acc : Forest × Bool) (h : acc.1 = F) :
     (l.foldl (fun (acc : Forest × Bool) alts =>
         if !acc.2 then acc else
-        let pick := alts.find? fun g => (enable n acc.1 o g true false).2
-        match pick with
+        let tested := alts.foldl (fun (t : Forest × Option Nat) g =>
+            match t.2 with
+            | some _ => t
+            | none =>
+              let r := enable n t.1 o g true false false
+              (r.1, if r.2 then some g else none)) (acc.1, none)
+        match tested.2 with
         | none =>
-          if !true then (alts.foldl (fun F g => (enable n F o g false false).1) acc.1, false) else (acc.1, false)
+          if !true then (alts.foldl (fun F g => (enable n F o g false false true).1) tested.1, false) else (tested.1, false)
         | some g =>
-          if !true then
-            let F' := (enable n acc.1 o g false false).1
+          if !true || false then
+            let F' := (enable n tested.1 o g false false false).1
             (setF F' o f { (getF F' o f) with altRefs := (getF F' o f).altRefs ++ [g] }, true)
-          else (acc.1, true)) acc).1 = F := by
+          else (tested.1, true)) acc).1 = F := by
   refine foldl_fst_inv _ F ?_ l acc h
   intro acc alts h
   split
   · exact h
-  · dsimp only
-    split <;> exact h
+  · have ht := dry_tested_fold n ih F o alts (acc.1, none) h
+    dsimp only
+    split <;> exact ht
 
 /-- `requires_children` in a dry run -/
 theorem dry_children_fold (F : Forest) (o : Nat) (l : List Nat) (acc : Forest × Bool) (h : acc.1 = F) :
     (l.foldl (fun (acc : Forest × Bool) g =>
         (childrenOf acc.1 o).foldl (fun (acc : Forest × Bool) ch =>
-          if !acc.2 then acc else enable n acc.1 ch g (true || !isActive acc.1 o) false) acc) acc).1 = F := by
+          if !acc.2 then acc else enable n acc.1 ch g (true || !isActive acc.1 o) false false) acc) acc).1 = F := by
   refine foldl_fst_inv _ F ?_ l acc h
   intro acc g h
   refine foldl_fst_inv _ F ?_ _ acc h
@@ -77,9 +97,9 @@ theorem dry_children_fold (F : Forest) (o : Nat) (l : List Nat) (acc : Forest ×
 
 end
 
-/-- a dry run of `enable` returns the forest it was given -/
+/-- a dry run of `enable` outside an error report (`err = false`) returns the forest it was given -/
 theorem enable_dry_fst (fuel : Nat) : ∀ (F : Forest) (o f : Nat) (tl : Bool),
-    (enable fuel F o f true tl).1 = F := by
+    (enable fuel F o f true tl false).1 = F := by
   induction fuel with
   | zero => intro F o f tl; rw [enable]
   | succ n ih =>
@@ -88,8 +108,8 @@ theorem enable_dry_fst (fuel : Nat) : ∀ (F : Forest) (o f : Nat) (tl : Bool),
     apply dry_shape
     · simp
     · exact dry_self_fold n ih F o _ _ rfl
-    · exact dry_alt_fold n F o f _ _ (dry_self_fold n ih F o _ _ rfl)
+    · exact dry_alt_fold n ih F o f _ _ (dry_self_fold n ih F o _ _ rfl)
     · exact dry_children_fold n ih F o _ _
-        (dry_alt_fold n F o f _ _ (dry_self_fold n ih F o _ _ rfl))
+        (dry_alt_fold n ih F o f _ _ (dry_self_fold n ih F o _ _ rfl))
 
 end Cv.C13
